@@ -490,6 +490,11 @@ func (x *Exec) simple(st *State, fr *Frame, in ssa.Instruction) {
 		}
 		if _, isIface := elem.Underlying().(*types.Interface); ss.kindOf(elem) == KOpaque && !isIface {
 			root := x.allocRoot(st, "new")
+			if strings.HasSuffix(elem.String(), "errgroup.Group") {
+				// the zero Group has no error yet
+				h := st.heap("G_egerr", "(Array Int Err)")
+				x.setHeap(st, "G_egerr", "(Array Int Err)", sx("store", h, root, "ErrNil"))
+			}
 			fr.vals[in] = Val{K: KPtr, Typ: in.Type(), Ptr: &Pointer{Heap: "", Elem: elem, Root: root, Fresh: true}}
 			return
 		}
